@@ -94,7 +94,7 @@ SPEC = {
     "exhaustive": True,
     "technique": "deterministic simulation with fault injection: the patch()/CLI life cycle with a fault enumerated at every point (set-up failure at each target position x cause, every body exit mode, nested and repeated entry), each scenario in a forked process; identity and liveness invariants before/inside/after",
     "level_text": (
-        f"The finite scenario space is enumerated completely ({N_ENUM} scenarios: target lists with the bad target at every position x 3 "
+        f"The finite scenario space is enumerated completely ({N_ENUM} scenarios: target lists with the bad target at every position x 5 "
         "causes, from-import and not-yet-imported targets, string vs list form) x (body ends normally / Exception / KeyboardInterrupt / "
         "SystemExit) x (nested entry or not), each followed by re-entry; plus the CLI with a script/module that returns, raises or exits "
         "and option forms short/long/=/attached. Then seeded random target lists and argv token sequences. Checked: identity (`is`) of every "
